@@ -142,6 +142,7 @@ pub fn check(plans: &[Plan], recs: &[RunRec]) -> Outcome {
     let (plan, rec) = (&plans[0], &recs[0]);
     let mut out = Outcome::default();
     common_stats(plan, rec, &mut out.stats);
+    super::check_input_blocked(rec, &mut out);
     let h = history(rec);
     let views = go_views(&h);
     let enum_pair = plan.params.get("enum_pair").and_then(super::super::json::J::as_u64);
@@ -155,6 +156,15 @@ pub fn check(plans: &[Plan], recs: &[RunRec]) -> Outcome {
             if *n > 0 {
                 out.stats.inc(&format!("reach.write_site_{}_seen_before_abort", sites[i]));
             }
+        }
+        if t.first_abort.is_none() && t.inserts_over_budget > 0 {
+            out.violations.push(Violation::new(
+                "cache_write_at_exhausted_budget",
+                format!(
+                    "go #{} ({:?}): {} cache insert(s) with the node counter at or over the budget, and the search never acknowledged an interruption",
+                    v.idx, v.text, t.inserts_over_budget
+                ),
+            ));
         }
         match t.first_abort {
             None => {
@@ -207,6 +217,20 @@ pub fn check(plans: &[Plan], recs: &[RunRec]) -> Outcome {
             }
         }
         let changed = diff.unwrap_or(0);
+        if t.inserts_over_budget > 0 && !(changed > 0 || t.inserts_after_abort > 0) {
+            // independent of the abort observers: the node counter had reached the budget when
+            // the entry was written, so the value depends on a child that could not be searched
+            out.violations.push(Violation::new(
+                "cache_write_at_exhausted_budget",
+                format!(
+                    "go #{} ({:?}) in {}: {} cache insert(s) were made with the node counter at or over the node budget",
+                    v.idx,
+                    v.text,
+                    v.pos.as_ref().map_or("?".into(), Pos::to_fen),
+                    t.inserts_over_budget
+                ),
+            ));
+        }
         if changed > 0 || t.inserts_after_abort > 0 {
             out.violations.push(Violation::new(
                 "cache_write_after_interruption",
